@@ -58,7 +58,7 @@ func main() {
 	r.Supervise() // the engine runs in-process: its death is an outcome, observed by a supervising parent
 	r.Rule("seeded histories of create/delete/restore/list/lookup over 3 names interleaved with puts, deletes and range deletes on the tables, each followed by dumps of all tables and (periodically) a reconciliation pass; " +
 		"racing creations of one name from 2-8 goroutines (thorough: from different nodes); random (catalogue, running shards) sets for the pure diff. " +
-		"Non-trivial: a history containing delete->recreate of a name that held data, a restore, and data operations interleaved on two tables; distinct by history seed")
+		"Non-trivial cases: every re-creation of a name whose previous incarnation held data, every restore, every whole history containing both plus data operations interleaved on two tables, every racing round with a winner and >=2 racers; distinct by (history seed, operation number)")
 	r.Assume("user-table shard ids are > 10000 (system shards 1000/2000 are neither started nor stopped by reconciliation)",
 		"a create/delete racing with other catalogue changes may fail (the statement promises success only absent concurrent changes); only 'at most one success per name' and id uniqueness are judged there")
 	if r.Replay != "" {
@@ -92,7 +92,7 @@ func main() {
 		}
 		r.Extra("race_reports_third_party", rep.ThirdParty)
 	}
-	r.FloorNontrivial(1)
+	r.FloorNontrivial(int64(r.Pick(20, 150)))
 	r.FloorCount("catalogue_ops", int64(r.Pick(80, 800)))
 	r.FloorCount("creates_ok", int64(r.Pick(8, 80)))
 	r.FloorCount("deletes_ok", int64(r.Pick(5, 50)))
@@ -243,6 +243,7 @@ func runHistory(r *ev.Run, id caseID) {
 			if hadDataDeleted[name] {
 				r.Count("recreated_tables_read_empty", 1)
 				sawRecreate = true
+				r.Nontrivial(fmt.Sprint("recreate", id.Seed, i))
 			}
 		case k < 22: // delete
 			w.Ops = append(w.Ops, fmt.Sprintf("delete(%s)", name))
@@ -310,6 +311,7 @@ func runHistory(r *ev.Run, id caseID) {
 			}
 			r.Count("restores_ok", 1)
 			sawRestore = true
+			r.Nontrivial(fmt.Sprint("restore", id.Seed, i))
 		case k < 34: // list + lookups
 			w.Ops = append(w.Ops, "list")
 			ts, err := e.GetTables()
@@ -410,6 +412,44 @@ func runHistory(r *ev.Run, id caseID) {
 		}
 		if !isolation("") {
 			return
+		}
+		// multi-node clusters: catalogue reads are served by each node's local replica, which may lag
+		// the node that made the change by a few milliseconds. Before the next operation (possibly
+		// on another node) every node's listing must have caught up with the model — bounded; a
+		// replica that never catches up is a violation, the lag itself is not.
+		if len(c.Nodes) > 1 {
+			deadline := time.Now().Add(10 * time.Second)
+			for {
+				lag := ""
+				for _, n := range c.Nodes {
+					ts, err := n.Engine.GetTables()
+					if err != nil {
+						lag = err.Error()
+						break
+					}
+					got := map[string]uint64{}
+					for _, t := range ts {
+						got[t.Name] = t.ClusterID
+					}
+					if len(got) != len(cat) {
+						lag = fmt.Sprintf("node %d lists %v", n.ID, got)
+						break
+					}
+					for name, t := range cat {
+						if got[name] != t.id {
+							lag = fmt.Sprintf("node %d lists %v", n.ID, got)
+						}
+					}
+				}
+				if lag == "" {
+					break
+				}
+				if time.Now().After(deadline) {
+					fail("catalogue-replica-does-not-catch-up", fmt.Sprintf("10 s after %s: %s, model has %d tables", w.Ops[len(w.Ops)-1], lag, len(cat)))
+					return
+				}
+				time.Sleep(5 * time.Millisecond)
+			}
 		}
 	}
 	r.Eval(1)
@@ -558,6 +598,9 @@ func runRace(r *ev.Run, id caseID) {
 			}
 		}
 		r.Count("create_races", 1)
+		if len(succ) > 0 && k >= 2 {
+			r.Nontrivial(fmt.Sprint("race", id.Seed, round))
+		}
 		if len(succ) > 0 {
 			r.Count("create_races_with_a_winner", 1)
 		}
